@@ -8,6 +8,7 @@ import (
 	"encoding/binary"
 	"fmt"
 	"math/big"
+	"sort"
 
 	"github.com/New-JAMneration/JAM-Protocol/internal/types"
 	"github.com/New-JAMneration/JAM-Protocol/internal/utilities/hash"
@@ -18,14 +19,14 @@ import (
 type vRange struct{ addr, n uint64 }
 
 type vCallSpec struct {
-	op       OperationType
-	table    Omegas
-	req      []vRange // input ranges that must be readable (else PANIC)
-	dst      *vRange  // the only guest range the call may write
-	dstWrite bool     // dst must be writable as a precondition even if nothing is written (invoke)
-	twoRegs  bool     // may change ω8 as well
-	noRegs   bool     // may change no register (log)
-	extraPanic bool   // other specified panic conditions may apply (decode errors, l >= 2^32)
+	op         OperationType
+	table      Omegas
+	req        []vRange // input ranges that must be readable (else PANIC)
+	dst        *vRange  // the only guest range the call may write
+	dstWrite   bool     // dst must be writable as a precondition even if nothing is written (invoke)
+	twoRegs    bool     // may change ω8 as well
+	noRegs     bool     // may change no register (log)
+	extraPanic bool     // other specified panic conditions may apply (decode errors, l >= 2^32)
 }
 
 // dst0 returns the (saturating) end of the destination range.
@@ -267,6 +268,19 @@ func (c *vHC) gen(r vh.R, op OperationType) vCallSpec {
 			f = uint64(r.IntN(100))
 		}
 		w[7], w[8], w[9], w[10], w[11], w[12] = o, l, uint64(r.IntN(100)), uint64(r.IntN(100)), f, uint64(r.IntN(400))
+		if c.caller == c.add.ResultContextX.PartialState.CreateAcct && r.Bool() {
+			// the registrar asks for a reserved id that is already taken (FULL, nothing charged) — or, half of the time, a free one
+			var low []types.ServiceID
+			for id := range c.add.ResultContextX.PartialState.ServiceAccounts {
+				if id < 65536 {
+					low = append(low, id)
+				}
+			}
+			sort.Slice(low, func(i, j int) bool { return low[i] < low[j] })
+			if len(low) > 0 {
+				w[12] = uint64(low[r.IntN(len(low))])
+			}
+		}
 		sp.req = []vRange{{o, 32}}
 		sp.extraPanic = true
 	case UpgradeOp:
